@@ -11,7 +11,7 @@ RULE = (
     "raising within it is success.  Buffers: (a) well-formed reference responses with every embedded length/count field "
     "forced to 0,1,2,max,max-1 and random inconsistent values, singly and in pairs; (b) every prefix of those; (c) all-00, "
     "all-FF, ascending and random buffers of lengths 0..4100; (d) READ CD with every est/mcsb/c2ei/scsb combination.  A sample "
-    "of calls also runs under tracemalloc with the bound 1 MiB + 64*len.  distinct = hash(decoder, parameters, buffer); "
+    "of calls also runs under tracemalloc with the bound 1 MiB + 512*len.  distinct = hash(decoder, parameters, buffer); "
     "non-trivial = >=1 length field differs from its consistent value (or buffer is not a well-formed response)"
 )
 ASSUMPTIONS = [
@@ -45,7 +45,7 @@ def call_budget(ctx, sm, name, fn, buf, alloc, wit_fn, klass, memcheck=False):
         _cur, peak = tracemalloc.get_traced_memory()
         tracemalloc.stop()
         ctx.count("tracemalloc_samples")
-        if peak > (1 << 20) + 64 * n and out != "budget":
+        if peak > (1 << 20) + 512 * n and out != "budget":  # one dictionary per 4-byte descriptor is ~130 bytes per byte, legitimately
             ctx.fail("C11:%s.memory.%s" % (name, klass), "%s allocated %d bytes decoding %d bytes" % (name, peak, len(buf)), wit_fn())
     ctx.count("monitored_calls")
     ctx.count("outcome_" + out.split(":")[0])
